@@ -42,6 +42,8 @@ check("C01", "reads return the latest write through every layer", [
 check("C02", "acknowledged writes survive a crash; recovery yields a history prefix", [
     ob("VerifC02_CrashPrefix", "pkg/engine/storage", "puts with synchronous logging, the process dies at any file-system step (both crash models), reopen: recovered state is a prefix containing every acknowledged write",
        "<=2 puts to distinct keys, crash at every simfs operation, torn in-flight write (every length <=24 bytes), process-death and power-loss models"),
+    ob("VerifC02_CleanCloseReopen", "pkg/engine", "all three log sync modes; programs of small puts, deletes, a put at a log-fragment boundary (+-1), batches of 2/3 x 30 KiB (below/above the 64 KiB log buffer); clean close; reopen: state equals the pre-close state",
+       "<=2 steps, 3 keys", "<=3 steps", q={"budget_s": 300}, t={"budget_s": 1800}),
 ], [SIMFS, CLOCK, HASH, BLOOM, RAND, LOG, TIERA, "crash counterexamples are replayed natively by materialising the post-crash directory image and running the native recovery on it"],
    ["directory-entry durability", "media errors"])
 
@@ -55,6 +57,13 @@ check("C03", "transactions are all-or-nothing", [
     ob("VerifC03_CommitVsReader", "pkg/engine", "a committing transaction (2 keys) vs. a reader doing two plain gets in either order or inside a read-only transaction: first read new => second read new; a read-only transaction sees one state",
        "2 threads, preemption bound 1", "preemption bound 2", q=P1, t=P2, no_validate=True),
 ], [SIMFS, CLOCK, HASH, BLOOM, RAND, LOG, TIERA], [])
+
+check("C04", "transactions are serializable with respect to each other", [
+    ob("VerifC04_TwoTxSerializable", "pkg/engine", "two concurrent transactions (read-only: read both keys; read-write: read, put/delete, read back, commit/rollback) on the real EngineFacade: every explored interleaving's reads and final state equal one of the two serial orders, consistent with real time",
+       "2 transactions x 18 shapes each over 2 keys, symbolic values, preemption bound 1", "preemption bound 2", q=P1, t={"preempt": 2, "budget_s": 3000}, no_validate=True),
+    ob("VerifC17_TxCallSequences", "pkg/transaction", "lock discipline of one transaction: isolation lock held in the right mode from begin to the first finish, every storage access under it, released exactly once; own writes read back; nothing reaches storage before commit",
+       "<=4 calls, 2 keys", "<=5 calls"),
+], [SIMFS, CLOCK, HASH, BLOOM, JSON, RAND, LOG, "Tier B: schedules enumerated exhaustively up to the preemption bound; data symbolic in every schedule"], ["more than 2 concurrent transactions", "writes issued outside transactions (excluded by the property)"])
 
 check("C05", "scans: exactly the live keys, once, in order, within bounds", [
     ob("VerifC05_MergeNewestWins", "pkg/common/iterator/composite", "HierarchicalIterator over two sorted sources with tombstones: SeekToFirst/Next*, Seek(t)", "<=2 keys per source, 1-byte keys"),
@@ -76,7 +85,9 @@ check("C07", "no race, crash or hang under concurrent use", [
 
 check("C08", "sequence numbers strictly increase", [
     ob("VerifC08_SeqMonotone", "pkg/engine/storage", "programs of put / 2-entry batch / flush / reopen; log read back: first sequence per write strictly increasing; reported last sequence never decreases",
-       "<=4 steps, 1 key"),
+       "<=4 steps over put / 2-entry batch / flush / reopen / fragmented (33 KB) put, 1 key"),
+    ob("VerifC08_SeqAcrossDamagedRecovery", "pkg/engine/storage", "log tail cut at every byte offset, reopen + write, close, reopen + write: every acknowledged write above all earlier ones, reported last sequence never decreases",
+       "<=2 entries before the cut, every cut offset, two recoveries"),
 ], [SIMFS, CLOCK, HASH, BLOOM, RAND, LOG, TIERA], [])
 
 check("C09", "the log replays exactly what was appended", [
@@ -103,6 +114,8 @@ check("C11", "an SSTable reads back exactly what was written", [
     ob("VerifC11_SeekRestartInterval", "pkg/sstable", "17-18 keys (two restart intervals): Seek(t) lands on the first key >= t, iteration yields the rest once", "17..18 one-byte keys"),
     ob("VerifC11_GetAcrossBlocks", "pkg/sstable", "two data blocks (64 KiB value closes the first): point lookups of every written key and of an absent key", "2 blocks, <=2 small entries per block", q={"budget_s": 300}),
     ob("VerifC11_SeekAcrossBlocks", "pkg/sstable", "two data blocks: Seek(t) + Next*", "2 blocks", q={"budget_s": 300}),
+    ob("VerifC11_FlipOneByte", "pkg/sstable", "one byte at any position of a finished table (data block, restart array, trailer, bloom section, index block, footer) replaced by a symbolic different value: open/iterate/seek/get fail or yield only written entries, ascending; no panic",
+       "tables of 1-2 entries; every file position except the interior of the bloom bit array (5 representatives); every replacement value", "tables of 1-3 entries", q={"budget_s": 400}, t={"budget_s": 1800}),
     ob("VerifC11_BloomNoFalseNegative", "pkg/bloom_filter", "real Add/Contains/SaveToFile/LoadBloomFilter on a 20-bit filter: no false negative", "<=2 keys, 20 bits, 7 hash functions"),
 ], [SIMFS, CLOCK, HASH, BLOOM, LOG, TIERA], ["keys > 64 KiB (uint16 length field)", ">2 blocks", "multi-byte damage"])
 
